@@ -1,6 +1,1908 @@
-//! C10 — monitor not built yet.
-use crate::core::Ctx;
+//! C10 — ASCII armor round trip, checksum correctness and tolerant reading.
+//!
+//! Oracles
+//!  1. writer: `armor::write` (and the second emitter in `MessageBuilder::to_armored_*`) against the
+//!     independent reference (`rfc::armor`): BEGIN/END lines, header lines, body lines <= 64 chars of
+//!     canonical base64 of the data, `=`+CRC-24 line, for every length, block type, header map,
+//!     checksum on/off, source write chunking and sink schedule.
+//!  2. reader: `Dearmor` over the library output and over reference-produced formatting variants
+//!     must give the same (bytes, type, headers, checksum field) for every source read schedule,
+//!     source wrapper and consumer pattern.
+//!  3. CRC option: accepted iff the checksum matches; status values.
+//!  4. `to_armored_*` / `from_armor*` of keys, messages, detached signatures.
+//!
+//! Violation signatures (`<variant>` = name of the formatting variant or `lib-output`):
+//!  * `C10/writer/<clause>` and `C10/composed/<object>/<clause>` with clause in `error`, `not-utf8`,
+//!    `malformed`, `begin-end-line`, `header-lines`, `line-longer-than-64`, `body-not-canonical-base64`,
+//!    `body-not-data`, `checksum-missing`, `checksum-wrong`, `checksum-unrequested`,
+//!    `checksum-line-malformed`, `trailing-garbage`; `C10/composed/<object>/{armor-error,
+//!    string-vs-bytes, read-error/<api>, roundtrip-differs/<api>, headers-differ/<api>}`.
+//!  * `C10/reader/<symptom>/<variant>` with symptom in `armor-header-error`, `armor-footer-error`,
+//!    `crc-error`, `other-error`, `type-differs`, `data-differs`, `headers-differ`,
+//!    `checksum-field-differs`, `status-differs`, `rest-differs`; the same with
+//!    `schedule-dependent/` in front when the baseline drive (whole input in one window) of the same
+//!    input met the expectation.
+//!  * `C10/crc-check/<symptom>/<variant>`: `no-checksum-rejected`, `status-differs/no-checksum`,
+//!    `status-differs/correct-checksum`, `data-differs`, `correct-checksum-rejected/calc=other`,
+//!    `wrong-checksum-accepted`, `wrong-checksum-other-failure`, `<error class>`.
+//!  * four signatures without input class, each naming one defect present on the tree the monitor
+//!    was written against:
+//!    `C10/crc-check/correct-checksum-rejected/calc=B704CE` and
+//!    `C10/crc-check/wrong-checksum-accepted/calc=B704CE` (CRC accumulator updated on a copy: the
+//!    calculated value stays at the initial value, so every correct checksum over non-empty data is
+//!    rejected and a footer equal to the initial value is accepted),
+//!    `C10/reader/schedule-dependent/armor-header-error/headers-present` (a window of the source
+//!    ending inside the armor header lines makes header parsing fail),
+//!    `C10/reader/headers-differ/hdr-value-ends-with-colon` (a header value ending in ':' is read
+//!    back as part of the key).
+//!  * `<prefix>/panic/<file:line>` from the panic guard.
+
+use std::collections::BTreeMap;
+use std::io::{self, BufRead, BufReader, Read};
+
+use pgp::armor::{self, ArmorCrc24Status, BlockType, Dearmor, DearmorOptions, Headers, PKCS1Type};
+use pgp::composed::{
+    ArmorOptions, Deserializable, DetachedSignature, Message, MessageBuilder, SignedPublicKey,
+    SignedSecretKey,
+};
+use pgp::crypto::hash::HashAlgorithm;
+use pgp::ser::Serialize;
+use pgp::types::Password;
+use rand::{Rng, RngCore, SeedableRng};
+use serde_json::{json, Value};
+
+use crate::core::{hexs, Ctx};
+use crate::rfc;
+use crate::shim::{drain_read, Consume, Sched, SchedReader, SchedWriter};
+use crate::zoo;
+
+const CRC_INIT: u32 = 0xB704CE;
+const ENTRY_NAMES: [&str; 3] = ["read", "read_header", "read_only_header+after_header"];
+const SIG_HEADER_SPLIT: &str = "C10/reader/schedule-dependent/armor-header-error/headers-present";
+const COLON_CLASS: &str = "hdr-value-ends-with-colon";
+
+// ------------------------------------------------------------------------------------------
+// payload handed to armor::write, written in configurable pieces
+
+#[derive(Clone, Debug)]
+enum Chunking {
+    Whole,
+    Fixed(usize),
+    Random(u64),
+}
+
+impl Chunking {
+    fn name(&self) -> String {
+        match self {
+            Chunking::Whole => "whole".into(),
+            Chunking::Fixed(n) => format!("fixed{n}"),
+            Chunking::Random(_) => "random".into(),
+        }
+    }
+}
+
+struct Raw<'a> {
+    data: &'a [u8],
+    chunk: &'a Chunking,
+}
+
+impl Serialize for Raw<'_> {
+    fn to_writer<W: io::Write>(&self, w: &mut W) -> pgp::errors::Result<()> {
+        match self.chunk {
+            Chunking::Whole => w.write_all(self.data)?,
+            Chunking::Fixed(n) => {
+                for c in self.data.chunks((*n).max(1)) {
+                    w.write_all(c)?;
+                }
+            }
+            Chunking::Random(seed) => {
+                let mut r = rand_chacha::ChaCha8Rng::seed_from_u64(*seed);
+                let mut p = 0;
+                while p < self.data.len() {
+                    let n = r.gen_range(1..=200usize).min(self.data.len() - p);
+                    w.write_all(&self.data[p..p + n])?;
+                    p += n;
+                }
+            }
+        }
+        Ok(())
+    }
+    fn write_len(&self) -> usize {
+        self.data.len()
+    }
+}
+
+fn lib_write(
+    data: &[u8],
+    typ: BlockType,
+    headers: Option<&Headers>,
+    crc: bool,
+    chunk: &Chunking,
+    sink: &Sched,
+) -> Result<Vec<u8>, String> {
+    let raw = Raw { data, chunk };
+    match sink {
+        Sched::All => {
+            let mut v = Vec::new();
+            armor::write(&raw, typ, &mut v, headers, crc).map_err(|e| e.to_string())?;
+            Ok(v)
+        }
+        s => {
+            let mut w = SchedWriter::new(s.clone());
+            let h = w.handle();
+            armor::write(&raw, typ, &mut w, headers, crc).map_err(|e| e.to_string())?;
+            let v = h.borrow().clone();
+            Ok(v)
+        }
+    }
+}
+
+// ------------------------------------------------------------------------------------------
+// block types with their labels (labels written down here from RFC 9580 6.2 / PEM usage; not
+// taken from the library's Display impl)
+
+fn block_types() -> Vec<(BlockType, String)> {
+    let mut v: Vec<(BlockType, String)> = vec![
+        (BlockType::PublicKey, "PGP PUBLIC KEY BLOCK".into()),
+        (BlockType::PrivateKey, "PGP PRIVATE KEY BLOCK".into()),
+        (BlockType::Message, "PGP MESSAGE".into()),
+        (BlockType::Signature, "PGP SIGNATURE".into()),
+        (BlockType::File, "PGP ARMORED FILE".into()),
+        (BlockType::CleartextMessage, "PGP SIGNED MESSAGE".into()),
+        (BlockType::PublicKeyPKCS1(PKCS1Type::RSA), "RSA PUBLIC KEY".into()),
+        (BlockType::PublicKeyPKCS1(PKCS1Type::DSA), "DSA PUBLIC KEY".into()),
+        (BlockType::PublicKeyPKCS1(PKCS1Type::EC), "EC PUBLIC KEY".into()),
+        (BlockType::PublicKeyPKCS8, "PUBLIC KEY".into()),
+        (BlockType::PublicKeyOpenssh, "OPENSSH PUBLIC KEY".into()),
+        (BlockType::PrivateKeyPKCS1(PKCS1Type::RSA), "RSA PRIVATE KEY".into()),
+        (BlockType::PrivateKeyPKCS1(PKCS1Type::DSA), "DSA PRIVATE KEY".into()),
+        (BlockType::PrivateKeyPKCS1(PKCS1Type::EC), "EC PRIVATE KEY".into()),
+        (BlockType::PrivateKeyPKCS8, "PRIVATE KEY".into()),
+        (BlockType::PrivateKeyOpenssh, "OPENSSH PRIVATE KEY".into()),
+    ];
+    for (x, y) in [
+        (1usize, 1usize),
+        (3, 14),
+        (14, 0),
+        (0, 0),
+        (10, 9),
+        (255, 256),
+        (usize::MAX, usize::MAX),
+    ] {
+        v.push((BlockType::MultiPartMessage(x, y), format!("PGP MESSAGE, PART {x}/{y}")));
+    }
+    v
+}
+
+fn type_class(t: &BlockType) -> &'static str {
+    match t {
+        BlockType::PublicKey => "PublicKey",
+        BlockType::PrivateKey => "PrivateKey",
+        BlockType::Message => "Message",
+        BlockType::MultiPartMessage(_, _) => "MultiPartMessage",
+        BlockType::Signature => "Signature",
+        BlockType::File => "File",
+        BlockType::CleartextMessage => "CleartextMessage",
+        BlockType::PublicKeyPKCS1(PKCS1Type::RSA) => "PublicKeyPKCS1-RSA",
+        BlockType::PublicKeyPKCS1(PKCS1Type::DSA) => "PublicKeyPKCS1-DSA",
+        BlockType::PublicKeyPKCS1(PKCS1Type::EC) => "PublicKeyPKCS1-EC",
+        BlockType::PublicKeyPKCS8 => "PublicKeyPKCS8",
+        BlockType::PublicKeyOpenssh => "PublicKeyOpenssh",
+        BlockType::PrivateKeyPKCS1(PKCS1Type::RSA) => "PrivateKeyPKCS1-RSA",
+        BlockType::PrivateKeyPKCS1(PKCS1Type::DSA) => "PrivateKeyPKCS1-DSA",
+        BlockType::PrivateKeyPKCS1(PKCS1Type::EC) => "PrivateKeyPKCS1-EC",
+        BlockType::PrivateKeyPKCS8 => "PrivateKeyPKCS8",
+        BlockType::PrivateKeyOpenssh => "PrivateKeyOpenssh",
+    }
+}
+
+const ALL_TYPE_CLASSES: [&str; 17] = [
+    "PublicKey",
+    "PrivateKey",
+    "Message",
+    "MultiPartMessage",
+    "Signature",
+    "File",
+    "CleartextMessage",
+    "PublicKeyPKCS1-RSA",
+    "PublicKeyPKCS1-DSA",
+    "PublicKeyPKCS1-EC",
+    "PublicKeyPKCS8",
+    "PublicKeyOpenssh",
+    "PrivateKeyPKCS1-RSA",
+    "PrivateKeyPKCS1-DSA",
+    "PrivateKeyPKCS1-EC",
+    "PrivateKeyPKCS8",
+    "PrivateKeyOpenssh",
+];
+
+// ------------------------------------------------------------------------------------------
+// header sets
+
+#[derive(Clone, Debug)]
+struct HeaderSet {
+    name: &'static str,
+    /// None = `headers: None`
+    map: Option<Vec<(String, Vec<String>)>>,
+    /// "" or a class suffix that becomes part of violation signatures for this input class
+    class: &'static str,
+    /// usable with the cleartext block type (only `Hash` headers are legal there)
+    cleartext_ok: bool,
+}
+
+impl HeaderSet {
+    fn to_headers(&self) -> Option<Headers> {
+        self.map.as_ref().map(|m| {
+            let mut h: Headers = BTreeMap::new();
+            for (k, vs) in m {
+                h.entry(k.clone()).or_default().extend(vs.iter().cloned());
+            }
+            h
+        })
+    }
+    /// header lines in emission order: keys sorted bytewise, values in insertion order
+    fn pairs(&self) -> Vec<(String, String)> {
+        let mut merged: BTreeMap<String, Vec<String>> = BTreeMap::new();
+        if let Some(m) = &self.map {
+            for (k, vs) in m {
+                merged.entry(k.clone()).or_default().extend(vs.iter().cloned());
+            }
+        }
+        let mut out = vec![];
+        for (k, vs) in merged {
+            for v in vs {
+                out.push((k.clone(), v));
+            }
+        }
+        out
+    }
+}
+
+fn s(x: &str) -> String {
+    x.to_string()
+}
+
+fn fixed_header_sets() -> Vec<HeaderSet> {
+    let hs = |name, map: Option<Vec<(&str, Vec<&str>)>>, class, cleartext_ok| HeaderSet {
+        name,
+        map: map.map(|m| {
+            m.into_iter()
+                .map(|(k, vs)| (s(k), vs.into_iter().map(s).collect()))
+                .collect()
+        }),
+        class,
+        cleartext_ok,
+    };
+    vec![
+        hs("none", None, "", true),
+        hs("empty-map", Some(vec![]), "", true),
+        hs("key-without-values", Some(vec![("Comment", vec![])]), "", true),
+        hs("version", Some(vec![("Version", vec!["rPGP 1.0"])]), "", false),
+        hs("hash", Some(vec![("Hash", vec!["SHA256"])]), "", true),
+        hs("hash-two", Some(vec![("Hash", vec!["SHA256", "SHA3-512"])]), "", true),
+        hs("repeated-key", Some(vec![("Comment", vec!["first", "second", "first"])]), "", false),
+        hs("empty-value", Some(vec![("Comment", vec![""])]), "", false),
+        hs("empty-values-mixed", Some(vec![("Comment", vec!["", "x", ""]), ("Version", vec![""])]), "", false),
+        hs(
+            "utf8",
+            Some(vec![("Comment", vec!["Gr\u{fc}\u{df}e, \u{43c}\u{438}\u{440}, \u{65e5}\u{672c}\u{8a9e} \u{1f511}"]), ("Version", vec!["1"])]),
+            "",
+            false,
+        ),
+        hs(
+            "three-keys",
+            Some(vec![("Charset", vec!["UTF-8"]), ("Comment", vec!["a b  c"]), ("MessageID", vec!["abc123"])]),
+            "",
+            false,
+        ),
+        hs(
+            "colon-inside",
+            Some(vec![("Comment", vec!["see https://example.org/a: b", "k: v: w"]), ("X-a-1", vec![":x"])]),
+            "",
+            false,
+        ),
+        hs("spaces", Some(vec![("Comment", vec![" lead and trail ", "\ttab\t"])]), "", false),
+        hs(
+            "dashes",
+            Some(vec![("Comment", vec!["----- not a line -----", "=abcd", "-"]), ("a-b-c", vec!["-----BEGIN"])]),
+            "",
+            false,
+        ),
+        hs(
+            "long",
+            Some(vec![(
+                "Comment-0123456789-abcdefghijklmnopqrstuvwxyz-ABCDEFGHIJKLMNOPQRSTUVWXYZ",
+                vec!["0123456789012345678901234567890123456789012345678901234567890123456789012345678901234567890123456789012345678901234567890123456789012345678901234567890123456789012345678901234567890123456789"],
+            )]),
+            "",
+            false,
+        ),
+        hs("value-ends-with-colon", Some(vec![("Comment", vec!["note:"])]), "hdr-value-ends-with-colon", false),
+        hs(
+            "value-ends-with-colon-2",
+            Some(vec![("Comment", vec!["x"]), ("Version", vec!["a:"])]),
+            "hdr-value-ends-with-colon",
+            false,
+        ),
+    ]
+}
+
+/// random header set: 0..3 keys from [A-Za-z0-9-]+, 1..3 values of random UTF-8 without CR/LF.
+/// Values ending in ':' are a separate (fixed) input class and are not generated here.
+fn random_header_set(rng: &mut rand_chacha::ChaCha8Rng) -> HeaderSet {
+    const KEYCH: &[u8] = b"ABCDEFGHIJKLMNOPQRSTUVWXYZabcdefghijklmnopqrstuvwxyz0123456789-";
+    const VALCH: &[char] = &[
+        'a', 'b', 'z', 'A', 'Z', '0', '9', ' ', ' ', '\t', ':', '-', '=', '+', '/', '.', ',', ';', '<', '>', '@', '"', '\'',
+        '\u{e9}', '\u{fc}', '\u{416}', '\u{4e2d}', '\u{1f600}', '\u{7f}', '\u{1}', '\u{a0}', '\u{2028}',
+    ];
+    let nkeys = rng.gen_range(0..=3usize);
+    let mut m = vec![];
+    for _ in 0..nkeys {
+        let kl = rng.gen_range(1..=12usize);
+        let k: String = (0..kl).map(|_| KEYCH[rng.gen_range(0..KEYCH.len())] as char).collect();
+        let nv = rng.gen_range(1..=3usize);
+        let mut vs = vec![];
+        for _ in 0..nv {
+            let vl = rng.gen_range(0..=24usize);
+            let mut v: String = (0..vl).map(|_| VALCH[rng.gen_range(0..VALCH.len())]).collect();
+            while v.ends_with(':') {
+                v.pop();
+            }
+            vs.push(v);
+        }
+        m.push((k, vs));
+    }
+    HeaderSet { name: "random", map: Some(m), class: "", cleartext_ok: false }
+}
+
+// ------------------------------------------------------------------------------------------
+// reference re-formatter: produces the tolerated formatting variants
+
+#[derive(Clone, Debug)]
+struct Fmt {
+    eol: &'static str,
+    /// this many 70-character text lines in front (on top of `lead`)
+    long_lead: usize,
+    lead: Vec<&'static str>,
+    sep_ws: &'static str,
+    width: usize,
+    blank_every: usize,
+    blank_before_crc: usize,
+    blank_before_end: usize,
+    final_newline: bool,
+    trailing: Vec<&'static str>,
+}
+
+impl Default for Fmt {
+    fn default() -> Self {
+        Fmt {
+            eol: "\n",
+            long_lead: 0,
+            lead: vec![],
+            sep_ws: "",
+            width: 64,
+            blank_every: 0,
+            blank_before_crc: 0,
+            blank_before_end: 0,
+            final_newline: true,
+            trailing: vec![],
+        }
+    }
+}
+
+const VARIANTS: [&str; 15] = [
+    "plain",
+    "crlf",
+    "ws-separator",
+    "leading-text",
+    "leading-blank",
+    "no-final-newline",
+    "blank-in-body",
+    "trailing-text",
+    "width-76",
+    "width-small",
+    "crlf-ws-leading",
+    "crlf-blank-trailing-nofinal",
+    "leading-blank-crlf",
+    "all-mixed",
+    "long-leading",
+];
+
+fn variant_fmt(name: &str, k: usize) -> Fmt {
+    let d = Fmt::default();
+    match name {
+        "plain" => d,
+        "crlf" => Fmt { eol: "\r\n", ..d },
+        "ws-separator" => Fmt { sep_ws: [" ", "\t", " \t ", "    "][k % 4], ..d },
+        "leading-text" => Fmt {
+            lead: [
+                vec!["Hello, this is some text in front"],
+                vec!["From: someone", "Subject: key", "", "> quoted ---- text"],
+                vec!["x"],
+            ][k % 3]
+                .clone(),
+            ..d
+        },
+        "leading-blank" => Fmt { lead: [vec![""], vec!["", "", ""], vec![" ", "\t"]][k % 3].clone(), ..d },
+        "no-final-newline" => Fmt { final_newline: false, ..d },
+        "blank-in-body" => Fmt {
+            blank_every: [1, 2, 5][k % 3],
+            blank_before_crc: k % 2,
+            blank_before_end: (k / 2) % 2,
+            ..d
+        },
+        "trailing-text" => Fmt {
+            trailing: [vec!["some trailing text"], vec!["", "-- ", "signature line", ""], vec!["x"]][k % 3].clone(),
+            ..d
+        },
+        "width-76" => Fmt { width: 76, ..d },
+        "width-small" => Fmt { width: [1, 4, 3, 60, 63, 65][k % 6], ..d },
+        "crlf-ws-leading" => Fmt { eol: "\r\n", sep_ws: " \t", lead: vec!["intro line", ""], ..d },
+        "crlf-blank-trailing-nofinal" => Fmt {
+            eol: "\r\n",
+            blank_every: 3,
+            blank_before_crc: 1,
+            trailing: vec!["bye"],
+            final_newline: false,
+            ..d
+        },
+        "leading-blank-crlf" => Fmt { eol: "\r\n", lead: vec!["", ""], ..d },
+        "all-mixed" => Fmt {
+            eol: if k % 2 == 0 { "\r\n" } else { "\n" },
+            lead: vec!["text", ""],
+            sep_ws: "  ",
+            width: [48, 76, 64][k % 3],
+            blank_every: 4,
+            blank_before_crc: 1,
+            blank_before_end: 1,
+            final_newline: k % 4 < 2,
+            trailing: vec!["", "tail"],
+            long_lead: 0,
+        },
+        "long-leading" => Fmt { long_lead: [12, 45][k % 2], eol: if k % 3 == 0 { "\r\n" } else { "\n" }, ..d },
+        _ => unreachable!(),
+    }
+}
+
+/// crc: None = no checksum line; Some(v) = `=`+base64(v) (v may be deliberately wrong)
+fn ref_format(label: &str, pairs: &[(String, String)], data: &[u8], crc: Option<u32>, f: &Fmt) -> Vec<u8> {
+    let mut lines: Vec<String> = vec![];
+    for i in 0..f.long_lead {
+        lines.push(format!("{i:04} Lorem ipsum dolor sit amet, consectetur adipiscing elit, sed do ---- x"));
+    }
+    for l in &f.lead {
+        lines.push(l.to_string());
+    }
+    lines.push(format!("-----BEGIN {label}-----"));
+    for (k, v) in pairs {
+        lines.push(format!("{k}: {v}"));
+    }
+    lines.push(f.sep_ws.to_string());
+    let b64 = rfc::armor::b64_encode(data);
+    for (i, l) in b64.as_bytes().chunks(f.width.max(1)).enumerate() {
+        if f.blank_every > 0 && i > 0 && i % f.blank_every == 0 {
+            lines.push(String::new());
+        }
+        lines.push(String::from_utf8(l.to_vec()).unwrap());
+    }
+    if let Some(c) = crc {
+        for _ in 0..f.blank_before_crc {
+            lines.push(String::new());
+        }
+        lines.push(format!("={}", rfc::armor::b64_encode(&[(c >> 16) as u8, (c >> 8) as u8, c as u8])));
+    }
+    for _ in 0..f.blank_before_end {
+        lines.push(String::new());
+    }
+    lines.push(format!("-----END {label}-----"));
+    for l in &f.trailing {
+        lines.push(l.to_string());
+    }
+    let mut out = lines.join(f.eol);
+    if f.final_newline {
+        out.push_str(f.eol);
+    }
+    out.into_bytes()
+}
+
+// ------------------------------------------------------------------------------------------
+// driving the Dearmor
+
+#[derive(Clone, Debug)]
+enum Src {
+    /// the SchedReader itself is the BufRead
+    Direct,
+    /// std BufReader (8 KiB) over the SchedReader used as plain Read
+    Std,
+    /// std BufReader with this capacity
+    StdCap(usize),
+}
+
+impl Src {
+    fn name(&self) -> String {
+        match self {
+            Src::Direct => "direct".into(),
+            Src::Std => "bufreader".into(),
+            Src::StdCap(n) => format!("bufreader{n}"),
+        }
+    }
+}
+
+#[derive(Clone, Debug)]
+struct Drive {
+    sched: Sched,
+    src: Src,
+    cons: Consume,
+    /// 0 = plain `read`, 1 = `read_header` first, 2 = `read_only_header` + `Dearmor::after_header`
+    entry: u8,
+    /// the first window handed to the Dearmor covers everything up to the start of the body
+    /// (leading text, BEGIN line, header lines, separator line); the schedule applies after it
+    safe: bool,
+}
+
+impl Drive {
+    fn baseline() -> Self {
+        Drive { sched: Sched::All, src: Src::Direct, cons: Consume::ToEnd, entry: 0, safe: false }
+    }
+    fn name(&self) -> String {
+        format!(
+            "{}|{}|{}|{}{}",
+            self.sched.name(),
+            self.src.name(),
+            self.cons.name(),
+            ENTRY_NAMES[self.entry as usize],
+            if self.safe { "|head-in-one-window" } else { "" }
+        )
+    }
+    /// Variant of this drive for inputs that carry header lines: the head is delivered in one
+    /// window (small-capacity wrappers would split it again, they are replaced).
+    fn head_safe(mut self, k: usize) -> Self {
+        self.safe = true;
+        if matches!(self.src, Src::StdCap(_)) {
+            self.src = if k % 2 == 0 { Src::Direct } else { Src::Std };
+        }
+        self
+    }
+    fn for_pairs(self, pairs: &[(String, String)], k: usize) -> Self {
+        if pairs.is_empty() {
+            self
+        } else {
+            self.head_safe(k)
+        }
+    }
+    /// class used for coverage (random seeds removed)
+    fn class(&self) -> String {
+        let sc = match &self.sched {
+            Sched::Random(_, m) => format!("rand/{m}"),
+            o => o.name(),
+        };
+        format!("{}|{}{}", sc, self.src.name(), if self.safe { "|safe" } else { "" })
+    }
+    fn is_baseline(&self) -> bool {
+        matches!(self.sched, Sched::All) && matches!(self.src, Src::Direct)
+    }
+}
+
+fn sched_list(seed: u64) -> Vec<Sched> {
+    vec![
+        Sched::All,
+        Sched::Fixed(1),
+        Sched::Fixed(3),
+        Sched::Fixed(63),
+        Sched::Fixed(64),
+        Sched::Fixed(65),
+        Sched::Random(seed, 100),
+        Sched::Cycle(vec![1, 64, 2, 130]),
+        Sched::Fixed(1024),
+        Sched::Random(seed ^ 0x5555, 5000),
+        Sched::Fixed(2),
+        Sched::Fixed(127),
+    ]
+}
+
+const SCHED_CLASSES: [&str; 12] = [
+    "all", "fixed1", "fixed3", "fixed63", "fixed64", "fixed65", "rand/100", "cycle[1, 64, 2, 130]", "fixed1024",
+    "rand/5000", "fixed2", "fixed127",
+];
+
+fn src_list() -> Vec<Src> {
+    vec![Src::Direct, Src::Std, Src::StdCap(1), Src::StdCap(7), Src::StdCap(64), Src::StdCap(1000)]
+}
+
+fn cons_list() -> Vec<Consume> {
+    vec![
+        Consume::ToEnd,
+        Consume::Read(1),
+        Consume::Read(2),
+        Consume::Read(3),
+        Consume::Read(7),
+        Consume::Read(48),
+        Consume::Read(767),
+        Consume::Read(768),
+        Consume::Read(769),
+        Consume::Read(4096),
+        Consume::ReadCycle(vec![1, 13, 512, 3]),
+    ]
+}
+
+/// deterministic choice of the k-th drive
+fn drive_k(k: usize, seed: u64) -> Drive {
+    let sl = sched_list(seed);
+    let srcs = src_list();
+    let cl = cons_list();
+    Drive {
+        sched: sl[k % sl.len()].clone(),
+        src: srcs[(k / sl.len() + k) % srcs.len()].clone(),
+        cons: cl[(k / 3 + k / 7) % cl.len()].clone(),
+        entry: [0u8, 0, 1, 0, 2][k % 5],
+        safe: false,
+    }
+}
+
+/// offset of the first body byte: after the separator line that follows the BEGIN line
+fn body_start(input: &[u8]) -> usize {
+    let Some(b) = input.windows(10).position(|w| w == b"-----BEGIN") else { return 0 };
+    let mut pos = b;
+    let mut first = true;
+    while pos < input.len() {
+        let end = input[pos..].iter().position(|c| *c == b'\n').map(|i| pos + i + 1).unwrap_or(input.len());
+        let line = &input[pos..end];
+        if !first && line.iter().all(|c| matches!(c, b' ' | b'\t' | b'\r' | b'\n')) {
+            return end;
+        }
+        first = false;
+        pos = end;
+    }
+    input.len()
+}
+
+/// head in one window, then the scheduled reader
+struct HeadThen {
+    head: Vec<u8>,
+    hpos: usize,
+    rest: SchedReader,
+}
+
+impl Read for HeadThen {
+    fn read(&mut self, buf: &mut [u8]) -> io::Result<usize> {
+        if self.hpos < self.head.len() {
+            let n = buf.len().min(self.head.len() - self.hpos);
+            buf[..n].copy_from_slice(&self.head[self.hpos..self.hpos + n]);
+            self.hpos += n;
+            Ok(n)
+        } else {
+            self.rest.read(buf)
+        }
+    }
+}
+
+impl BufRead for HeadThen {
+    fn fill_buf(&mut self) -> io::Result<&[u8]> {
+        if self.hpos < self.head.len() {
+            Ok(&self.head[self.hpos..])
+        } else {
+            self.rest.fill_buf()
+        }
+    }
+    fn consume(&mut self, amt: usize) {
+        if self.hpos < self.head.len() {
+            self.hpos += amt;
+        } else {
+            self.rest.consume(amt)
+        }
+    }
+}
+
+#[derive(Debug, Clone)]
+struct Got {
+    data: Vec<u8>,
+    err: Option<String>,
+    typ: Option<BlockType>,
+    pairs: Vec<(String, String)>,
+    checksum: Option<u64>,
+    status: ArmorCrc24Status,
+    /// bytes left in the reader after the armor (only when finished cleanly)
+    rest: Option<Vec<u8>>,
+}
+
+fn flatten(h: &Headers) -> Vec<(String, String)> {
+    let mut out = vec![];
+    for (k, vs) in h {
+        for v in vs {
+            out.push((k.clone(), v.clone()));
+        }
+    }
+    out
+}
+
+fn run_dearmor(input: &[u8], d: &Drive, opts: DearmorOptions, want_rest: bool) -> Got {
+    let cut = if d.safe { body_start(input) } else { 0 };
+    let sr = HeadThen { head: input[..cut].to_vec(), hpos: 0, rest: SchedReader::new(input[cut..].to_vec(), d.sched.clone()) };
+    let src: Box<dyn BufRead> = match d.src {
+        Src::Direct => Box::new(sr),
+        Src::Std => Box::new(BufReader::with_capacity(8192.max(cut), sr)),
+        Src::StdCap(n) => Box::new(BufReader::with_capacity(n, sr)),
+    };
+    let mut de = Dearmor::with_options(src, opts);
+    let mut err = None;
+    if d.entry == 1 {
+        if let Err(e) = de.read_header() {
+            err = Some(format!("read_header: {e}"));
+        }
+    } else if d.entry == 2 {
+        // the path used by Any::from_armor: header alone, then a fresh Dearmor over the rest
+        // (after_header takes no options: no CRC checking on this path, callers use it only
+        // for runs without the CRC option)
+        let limit = de.max_buffer_limit();
+        match de.read_only_header() {
+            Ok((typ, headers, _leading, rest)) => de = Dearmor::after_header(typ, headers, rest, limit),
+            Err(e) => {
+                return Got {
+                    data: vec![],
+                    err: Some(format!("read_only_header: {e}")),
+                    typ: None,
+                    pairs: vec![],
+                    checksum: None,
+                    status: ArmorCrc24Status::NoCrc24,
+                    rest: None,
+                }
+            }
+        }
+    }
+    let mut data = vec![];
+    if err.is_none() {
+        let dr = drain_read(&mut de, &d.cons);
+        data = dr.data;
+        err = dr.err.map(|e| e.to_string());
+    }
+    let typ = de.typ;
+    let pairs = flatten(&de.headers);
+    let checksum = de.checksum;
+    let status = de.crc24_status();
+    let mut rest = None;
+    if err.is_none() && want_rest {
+        let (_t, _h, _c, mut r) = de.into_parts();
+        let mut v = vec![];
+        if r.read_to_end(&mut v).is_ok() {
+            rest = Some(v);
+        }
+    }
+    Got { data, err, typ, pairs, checksum, status, rest }
+}
+
+fn status_name(s: &ArmorCrc24Status) -> &'static str {
+    match s {
+        ArmorCrc24Status::NoCrc24 => "NoCrc24",
+        ArmorCrc24Status::CheckedOk { .. } => "CheckedOk",
+        ArmorCrc24Status::CheckedInvalid { .. } => "CheckedInvalid",
+        ArmorCrc24Status::Unchecked { .. } => "Unchecked",
+    }
+}
+
+fn err_class(e: &str) -> &'static str {
+    if e.contains("armor header") {
+        "armor-header-error"
+    } else if e.contains("armor footer") {
+        "armor-footer-error"
+    } else if e.contains("crc24") {
+        "crc-error"
+    } else {
+        "other-error"
+    }
+}
+
+struct Expect<'a> {
+    data: &'a [u8],
+    typ: BlockType,
+    pairs: &'a [(String, String)],
+    /// checksum value present in the input, if any
+    footer: Option<u32>,
+    /// header set of the class "a value ends with ':'"
+    colon: bool,
+}
+
+/// What a run without CRC checking (or with a matching checksum) has to deliver. Returns the
+/// symptom of the first mismatch.
+fn mismatch(got: &Got, ex: &Expect) -> Option<(String, String)> {
+    if let Some(e) = &got.err {
+        return Some((err_class(e).to_string(), format!("error: {e}")));
+    }
+    if got.typ != Some(ex.typ) {
+        return Some(("type-differs".into(), format!("type {:?}, want {:?}", got.typ, ex.typ)));
+    }
+    if got.data != ex.data {
+        let p = got.data.iter().zip(ex.data.iter()).position(|(a, b)| a != b).unwrap_or(got.data.len().min(ex.data.len()));
+        return Some((
+            "data-differs".into(),
+            format!("got {} bytes, want {} bytes, first difference at {}", got.data.len(), ex.data.len(), p),
+        ));
+    }
+    if got.pairs != ex.pairs {
+        return Some(("headers-differ".into(), format!("headers {:?}, want {:?}", got.pairs, ex.pairs)));
+    }
+    if got.checksum != ex.footer.map(u64::from) {
+        return Some((
+            "checksum-field-differs".into(),
+            format!("checksum field {:?}, want {:?}", got.checksum, ex.footer),
+        ));
+    }
+    None
+}
+
+// ------------------------------------------------------------------------------------------
+
+struct Mon<'c> {
+    ctx: &'c mut Ctx,
+    types: Vec<(BlockType, String)>,
+    hsets: Vec<HeaderSet>,
+}
+
+impl Mon<'_> {
+    /// Oracle 1
+    fn check_writer(
+        &mut self,
+        emitter: &str,
+        out: &[u8],
+        label: &str,
+        pairs: &[(String, String)],
+        data: &[u8],
+        crc: bool,
+        replay: &Value,
+    ) {
+        self.ctx.eval();
+        let want = rfc::armor::armor_encode(label, pairs, data, crc, "\n");
+        if out == want.as_bytes() {
+            self.ctx.tally("writer.identical_to_reference", 1);
+            return;
+        }
+        let pre = format!("C10/{emitter}");
+        let Ok(st) = std::str::from_utf8(out) else {
+            self.ctx.violation(format!("{pre}/not-utf8"), "armored output is not UTF-8", replay.clone());
+            return;
+        };
+        // the property does not fix the writer's line ending: a consistent CRLF output is judged
+        // clause by clause like an LF output
+        let st_norm;
+        let st = if st.contains("\r\n") && !st.replace("\r\n", "").contains(['\r', '\n']) {
+            st_norm = st.replace("\r\n", "\n");
+            &st_norm[..]
+        } else {
+            st
+        };
+        let p = match rfc::armor::armor_parse_strict(st) {
+            Ok(p) => p,
+            Err(e) => {
+                let sig = if e.contains("canonical") {
+                    format!("{pre}/body-not-canonical-base64")
+                } else if e.contains("begin line") || e.contains("no end line") {
+                    format!("{pre}/begin-end-line")
+                } else if e.contains("header") {
+                    format!("{pre}/header-lines")
+                } else if e.contains("crc") {
+                    format!("{pre}/checksum-line-malformed")
+                } else {
+                    format!("{pre}/malformed")
+                };
+                self.ctx.violation(sig, format!("reference parser rejects emitted armor: {e}; len={}", data.len()), replay.clone());
+                return;
+            }
+        };
+        let mut bad = false;
+        let v = |ctx: &mut Ctx, sy: &str, det: String| {
+            ctx.violation(format!("{pre}/{sy}"), det, replay.clone());
+        };
+        if p.typ != label {
+            bad = true;
+            v(self.ctx, "begin-end-line", format!("label {:?}, want {:?}", p.typ, label));
+        }
+        if p.headers != pairs {
+            bad = true;
+            v(self.ctx, "header-lines", format!("header lines {:?}, want {:?}", p.headers, pairs));
+        }
+        if let Some(l) = p.body_lines.iter().find(|l| l.len() > 64) {
+            bad = true;
+            v(self.ctx, "line-longer-than-64", format!("body line of {} chars (data len {})", l.len(), data.len()));
+        }
+        if p.data != data {
+            bad = true;
+            v(self.ctx, "body-not-data", format!("body decodes to {} bytes, data has {}", p.data.len(), data.len()));
+        }
+        let want_crc = rfc::armor::crc24(data);
+        match (crc, p.crc) {
+            (true, None) => {
+                bad = true;
+                v(self.ctx, "checksum-missing", "checksum requested but no checksum line".into());
+            }
+            (true, Some(c)) if c != want_crc => {
+                bad = true;
+                v(self.ctx, "checksum-wrong", format!("emitted checksum {c:06X}, CRC-24 of data is {want_crc:06X} (len {})", data.len()));
+            }
+            (false, Some(_)) => {
+                bad = true;
+                v(self.ctx, "checksum-unrequested", "checksum line although include_checksum=false".into());
+            }
+            _ => {}
+        }
+        if !p.rest.is_empty() {
+            bad = true;
+            v(self.ctx, "trailing-garbage", format!("text after the END line: {:?}", p.rest));
+        }
+        if !bad {
+            self.ctx.tally("writer.conforming_but_differs_from_reference", 1);
+        }
+    }
+
+    /// Oracle 2: one input, one drive, CRC check off. `base_ok` tells whether the baseline drive
+    /// of the same input met the expectation (then a failure here is schedule dependence).
+    fn check_read(
+        &mut self,
+        input: &[u8],
+        ex: &Expect,
+        d: &Drive,
+        inclass: &str,
+        base_ok: Option<bool>,
+        want_rest: Option<&[u8]>,
+        replay: &Value,
+    ) -> bool {
+        let rp = || {
+            let mut r = replay.clone();
+            r["drive"] = json!(d.name());
+            r["input"] = json!(hexs(input));
+            r
+        };
+        let got = self.ctx.guarded(&format!("C10/reader/{inclass}"), rp, || {
+            run_dearmor(input, d, DearmorOptions::new(), want_rest.is_some())
+        });
+        self.ctx.eval();
+        let Some(got) = got else { return false };
+        self.ctx.seen("crc_status", status_name(&got.status));
+        self.ctx.seen("schedule_kinds", match &d.sched {
+            Sched::Random(_, mx) => format!("rand/{mx}"),
+            o => o.name(),
+        });
+        self.ctx.seen("source_wrappers", d.src.name());
+        self.ctx.seen("entries", ENTRY_NAMES[d.entry as usize]);
+        self.ctx.seen("consumers", d.cons.name());
+        let mut mm = mismatch(&got, ex);
+        if mm.is_none() {
+            let want_status = match ex.footer {
+                None => ArmorCrc24Status::NoCrc24,
+                Some(f) => ArmorCrc24Status::Unchecked { footer_crc: f },
+            };
+            if got.status != want_status {
+                mm = Some(("status-differs".into(), format!("crc24_status {:?}, want {:?}", got.status, want_status)));
+            }
+        }
+        if mm.is_none() {
+            if let (Some(w), Some(r)) = (want_rest, &got.rest) {
+                if w != &r[..] {
+                    mm = Some((
+                        "rest-differs".into(),
+                        format!("bytes left after the armor: {:?}, want {:?}", String::from_utf8_lossy(r), String::from_utf8_lossy(w)),
+                    ));
+                }
+            }
+        }
+        match mm {
+            None => true,
+            Some((sy, det)) => {
+                let sig = if sy == "armor-header-error" && !ex.pairs.is_empty() && !d.safe && !d.is_baseline() {
+                    // one defect, one signature: a window of the source ends inside the header lines
+                    SIG_HEADER_SPLIT.to_string()
+                } else if sy == "headers-differ" && ex.colon {
+                    format!("C10/reader/headers-differ/{COLON_CLASS}")
+                } else if base_ok == Some(true) && !d.is_baseline() {
+                    format!("C10/reader/schedule-dependent/{sy}/{inclass}")
+                } else {
+                    format!("C10/reader/{sy}/{inclass}")
+                };
+                self.ctx.violation(sig, format!("{det}; drive {}; data len {}", d.name(), ex.data.len()), rp());
+                false
+            }
+        }
+    }
+
+    /// Oracle 3: CRC check enabled.
+    /// `footer`: checksum in the input (None = no checksum line); `data` = what the body encodes.
+    fn check_crc(&mut self, input: &[u8], data: &[u8], footer: Option<u32>, d: &Drive, inclass: &str, replay: &Value) {
+        self.check_crc_h(input, data, footer, d, inclass, false, replay)
+    }
+
+    #[allow(clippy::too_many_arguments)]
+    fn check_crc_h(&mut self, input: &[u8], data: &[u8], footer: Option<u32>, d: &Drive, inclass: &str, has_headers: bool, replay: &Value) {
+        let rp = || {
+            let mut r = replay.clone();
+            r["drive"] = json!(d.name());
+            r["input"] = json!(hexs(input));
+            r["crc_check"] = json!(true);
+            r
+        };
+        let mut dd = d.clone();
+        if dd.entry == 2 {
+            dd.entry = 0;
+        }
+        let d = &dd;
+        let got = self.ctx.guarded(&format!("C10/crc-check/{inclass}"), rp, || {
+            run_dearmor(input, d, DearmorOptions::new().enable_crc24_check(), false)
+        });
+        self.ctx.eval();
+        let Some(got) = got else { return };
+        self.ctx.seen("crc_status", status_name(&got.status));
+        if let Some(e) = &got.err {
+            if has_headers && !d.safe && !d.is_baseline() && err_class(e) == "armor-header-error" {
+                self.ctx.violation(SIG_HEADER_SPLIT, format!("error: {e}; drive {}", d.name()), rp());
+                return;
+            }
+        }
+        let actual = rfc::armor::crc24(data);
+        let det = |what: &str| {
+            format!(
+                "{what}: data len {}, CRC-24(data)={actual:06X}, footer={:?}, result={:?}, status={:?}, drive {}",
+                data.len(),
+                footer.map(|f| format!("{f:06X}")),
+                got.err,
+                got.status,
+                d.name()
+            )
+        };
+        match footer {
+            None => {
+                self.ctx.seen("crc_cases", "absent");
+                if got.err.is_some() || got.data != data {
+                    self.ctx.violation(format!("C10/crc-check/no-checksum-rejected/{inclass}"), det("input without checksum not decoded"), rp());
+                } else if got.status != ArmorCrc24Status::NoCrc24 {
+                    self.ctx.violation(format!("C10/crc-check/status-differs/no-checksum/{inclass}"), det("status is not NoCrc24"), rp());
+                }
+            }
+            Some(f) if f == actual => {
+                self.ctx.seen("crc_cases", if data.is_empty() { "correct-empty" } else { "correct" });
+                match &got.err {
+                    None => {
+                        if got.data != data {
+                            self.ctx.violation(format!("C10/crc-check/data-differs/{inclass}"), det("decoded bytes differ"), rp());
+                        } else if got.status != (ArmorCrc24Status::CheckedOk { crc: f }) {
+                            self.ctx.violation(format!("C10/crc-check/status-differs/correct-checksum/{inclass}"), det("status is not CheckedOk"), rp());
+                        } else {
+                            self.ctx.tally("crc.correct_accepted", 1);
+                        }
+                    }
+                    Some(e) => {
+                        let stuck = matches!(
+                            got.status,
+                            ArmorCrc24Status::CheckedInvalid { footer_crc, calculated_crc }
+                                if footer_crc == f && calculated_crc == CRC_INIT
+                        );
+                        if stuck && !data.is_empty() && e.contains("invalid crc24 checksum") {
+                            // the known defect: accumulator updated on a copy (stable signature, no
+                            // input class: it is one defect)
+                            self.ctx.violation(
+                                "C10/crc-check/correct-checksum-rejected/calc=B704CE",
+                                det("correct checksum rejected, calculated CRC is the initial value"),
+                                rp(),
+                            );
+                        } else if e.contains("crc24") {
+                            self.ctx.violation(
+                                format!("C10/crc-check/correct-checksum-rejected/calc=other/{inclass}"),
+                                det("correct checksum rejected"),
+                                rp(),
+                            );
+                        } else {
+                            self.ctx.violation(
+                                format!("C10/crc-check/{}/{inclass}", err_class(e)),
+                                det("input with correct checksum failed for another reason"),
+                                rp(),
+                            );
+                        }
+                    }
+                }
+            }
+            Some(f) => {
+                self.ctx.seen("crc_cases", "wrong");
+                let rejected = got.err.as_ref().is_some_and(|e| e.contains("crc24"))
+                    && matches!(got.status, ArmorCrc24Status::CheckedInvalid { footer_crc, .. } if footer_crc == f);
+                if rejected {
+                    self.ctx.tally("crc.wrong_rejected", 1);
+                } else if got.err.is_none() {
+                    // a footer equal to the CRC-24 initial value on non-empty data is the other face
+                    // of the known accumulator defect (calculated value stuck at 0xB704CE): one
+                    // stable signature without input class; any other acceptance is a different one
+                    let stuck = f == CRC_INIT
+                        && !data.is_empty()
+                        && got.status == (ArmorCrc24Status::CheckedOk { crc: CRC_INIT });
+                    let sig = if stuck {
+                        "C10/crc-check/wrong-checksum-accepted/calc=B704CE".to_string()
+                    } else {
+                        format!("C10/crc-check/wrong-checksum-accepted/{inclass}")
+                    };
+                    self.ctx.violation(sig, det("checksum does not match but the input was accepted"), rp());
+                } else {
+                    self.ctx.violation(
+                        format!("C10/crc-check/wrong-checksum-other-failure/{inclass}"),
+                        det("mismatching checksum: failure is not the CRC error / status not CheckedInvalid"),
+                        rp(),
+                    );
+                }
+            }
+        }
+    }
+}
+
+/// checksum line of an emitted armor as the reference parser sees it (outer None: not parsable,
+/// the writer oracle has reported that already)
+fn emitted_footer(out: &[u8]) -> Option<Option<u32>> {
+    let st = std::str::from_utf8(out).ok()?;
+    rfc::armor::armor_parse_strict(st).ok().map(|p| p.crc)
+}
+
+fn gen_data(rng: &mut rand_chacha::ChaCha8Rng, len: usize, kind: usize) -> Vec<u8> {
+    match kind % 8 {
+        0 => vec![0u8; len],
+        1 => vec![0xFFu8; len],
+        2 => (0..len).map(|i| [0xFB, 0xEF, 0xBE][i % 3]).collect(), // base64 '+' only
+        3 => (0..len).map(|i| i as u8).collect(),
+        _ => {
+            let mut v = vec![0u8; len];
+            rng.fill_bytes(&mut v);
+            v
+        }
+    }
+}
 
 pub fn run(ctx: &mut Ctx) {
-    ctx.inconclusive("monitor not built yet");
+    let quick = ctx.quick();
+    // thorough enumerates the small scopes named in meta/C10.json completely
+    ctx.exhaustive = !quick;
+    let mut m = Mon { types: block_types(), hsets: fixed_header_sets(), ctx };
+    let ntypes = m.types.len();
+    let nh = m.hsets.len();
+    let base = Drive::baseline();
+    let chunkings = [
+        Chunking::Whole,
+        Chunking::Fixed(1),
+        Chunking::Fixed(3),
+        Chunking::Fixed(47),
+        Chunking::Fixed(48),
+        Chunking::Fixed(49),
+        Chunking::Random(0),
+        Chunking::Fixed(1024),
+    ];
+    let sinks = [Sched::All, Sched::All, Sched::Fixed(1), Sched::All, Sched::Random(7, 10), Sched::All, Sched::Cycle(vec![1, 65, 3])];
+
+    // --------------------------------------------------------------------------------------
+    // thread CPU time per family (summed over shards by the driver)
+    let mut t_fam = crate::core::thread_cpu_s();
+    let mut lap = |ctx: &mut Ctx, name: &str| {
+        let now = crate::core::thread_cpu_s();
+        ctx.tally(&format!("cpu_ms.family_{name}"), ((now - t_fam) * 1000.0) as u64);
+        t_fam = now;
+    };
+    // Family A: every payload length; per length one (type, header set) pair (rotating so that
+    // each pair meets lengths of every residue mod 3 and mod 48), checksum on and off,
+    // all formatting variants, rotating drives.
+    let maxlen = if quick { 1100usize } else { 4096 };
+    let reps = if quick { 10usize } else { 24 };
+    let nflips = if quick { 8usize } else { 24 };
+    for len in 0..=maxlen {
+        if !m.ctx.mine() {
+            continue;
+        }
+        crate::core::describe_case(&format!("A len={len}"));
+        m.ctx.seen("len_mod3", format!("{}", len % 3));
+        for r in 0..reps {
+        let mut rng = m.ctx.rng("A", (len * 16 + r) as u64);
+        let kind = if r == 0 { 7 } else { rng.gen_range(0..16usize) };
+        let data = gen_data(&mut rng, len, kind);
+        let seed = rng.gen::<u64>();
+        // kk replaces the length in all rotations so that repetitions take other combinations
+        let kk = len + r * 1009;
+        // rotate (type, header set) pairs: successive lengths move through types, and the header
+        // set index advances in a way that is coprime with the residues
+        let ti = (len + r * 7) % ntypes;
+        let (typ, label) = m.types[ti].clone();
+        let mut hi = (len / ntypes + len + r * 5) % (nh + 1);
+        let hs = loop {
+            let cand = if hi == nh { random_header_set(&mut rng) } else { m.hsets[hi].clone() };
+            if typ != BlockType::CleartextMessage || cand.cleartext_ok {
+                break cand;
+            }
+            hi = (hi + 1) % nh;
+        };
+        let headers = hs.to_headers();
+        let pairs = hs.pairs();
+        let crc_ref = rfc::armor::crc24(&data);
+        let hs_colon = !hs.class.is_empty();
+        m.ctx.seen("block_types", type_class(&typ));
+        m.ctx.seen("header_sets", hs.name);
+
+        for (ci, crc) in [true, false].into_iter().enumerate() {
+            let chunk = match &chunkings[(kk + ci) % chunkings.len()] {
+                Chunking::Random(_) => Chunking::Random(seed),
+                c => c.clone(),
+            };
+            let sink = sinks[(kk / 2 + ci) % sinks.len()].clone();
+            let replay = json!({"family": "A", "len": len, "type": label, "headers": hs.name, "pairs": pairs, "crc": crc,
+                "chunking": chunk.name(), "sink": sink.name(), "data": hexs(&data)});
+            let out = m.ctx.guarded("C10/writer", || replay.clone(), || {
+                lib_write(&data, typ, headers.as_ref(), crc, &chunk, &sink)
+            });
+            let Some(out) = out else { continue };
+            let out = match out {
+                Ok(o) => o,
+                Err(e) => {
+                    m.ctx.eval();
+                    m.ctx.violation("C10/writer/error", format!("armor::write failed: {e}"), replay);
+                    continue;
+                }
+            };
+            m.check_writer("writer", &out, &label, &pairs, &data, crc, &replay);
+            m.ctx.cover(&("A-w", len, ti, hs.name, crc, kind % 8));
+            // read the library output back: baseline + 3 rotating drives
+            // the reader is judged on what the text really contains (the checksum line as emitted)
+            let Some(emitted) = emitted_footer(&out) else { continue };
+            let ex = Expect { data: &data, typ, pairs: &pairs, footer: emitted, colon: hs_colon };
+            let inclass = "lib-output".to_string();
+            let bok = m.check_read(&out, &ex, &base, &inclass, None, Some(b""), &replay);
+            for j in 0..3 {
+                let d = drive_k(kk * 3 + j + ci * 5, seed).for_pairs(&pairs, kk + j);
+                m.ctx.seen("schedules", d.class());
+                m.ctx.cover(&("A-r", len, crc, d.class()));
+                m.check_read(&out, &ex, &d, &inclass, Some(bok), None, &replay);
+            }
+            // CRC check enabled on the library output
+            let d = drive_k(kk + ci, seed).for_pairs(&pairs, kk);
+            m.check_crc(&out, &data, ex.footer, &d, &inclass, &replay);
+        }
+
+        // formatting variants produced by the reference
+        for (vi, vname) in VARIANTS.iter().enumerate() {
+            let f = variant_fmt(vname, kk + vi);
+            let with_crc = (kk + vi) % 4 != 0;
+            let footer = with_crc.then_some(crc_ref);
+            let input = ref_format(&label, &pairs, &data, footer, &f);
+            let replay = json!({"family": "A", "len": len, "type": label, "headers": hs.name, "pairs": pairs,
+                "variant": vname, "with_crc": with_crc, "data": hexs(&data)});
+            let ex = Expect { data: &data, typ, pairs: &pairs, footer, colon: hs_colon };
+            let inclass = vname.to_string();
+            m.ctx.seen("variants", *vname);
+            m.ctx.seen("variants", if with_crc { "with-checksum" } else { "absent-checksum" });
+            let bok = m.check_read(&input, &ex, &base, &inclass, None, None, &replay);
+            let d = drive_k(kk * 7 + vi, seed).for_pairs(&pairs, kk + vi);
+            m.ctx.seen("schedules", d.class());
+            m.ctx.cover(&("A-v", len, vname, with_crc, d.class()));
+            m.check_read(&input, &ex, &d, &inclass, Some(bok), None, &replay);
+            // CRC option over the variant: correct / absent, and one wrong value
+            let d2 = drive_k(kk * 11 + vi + 1, seed).for_pairs(&pairs, kk);
+            m.check_crc(&input, &data, footer, &d2, &inclass, &replay);
+            if (kk + vi) % 3 == 0 {
+                let wrong = crc_ref ^ (1 << ((kk + vi) % 24));
+                let input = ref_format(&label, &pairs, &data, Some(wrong), &f);
+                m.check_crc(&input, &data, Some(wrong), &d2, &inclass, &replay);
+                // and with the option off the wrong checksum is carried, unchecked
+                let ex = Expect { data: &data, typ, pairs: &pairs, footer: Some(wrong), colon: hs_colon };
+                m.check_read(&input, &ex, &d2, &inclass, None, None, &replay);
+            }
+        }
+
+        // single-bit flips: all 24 checksum bits; data bits: all for len <= 32, else sampled
+        if r < 2 {
+            let f = Fmt::default();
+            let replay = json!({"family": "A-flip", "len": len, "type": label, "data": hexs(&data)});
+            let d = drive_k(kk, seed);
+            for b in 0..24 {
+                let wrong = crc_ref ^ (1 << b);
+                let input = ref_format(&label, &[], &data, Some(wrong), &f);
+                m.check_crc(&input, &data, Some(wrong), &d, "checksum-bit-flip", &replay);
+            }
+            let nbits = len * 8;
+            let bits: Vec<usize> = if len <= 32 {
+                (0..nbits).collect()
+            } else {
+                (0..nflips).map(|_| rng.gen_range(0..nbits)).collect()
+            };
+            for b in bits {
+                let mut dd = data.clone();
+                dd[b / 8] ^= 1 << (b % 8);
+                // the footer still carries the checksum of the original data
+                let input = ref_format(&label, &[], &dd, Some(crc_ref), &f);
+                m.check_crc(&input, &dd, Some(crc_ref), &d, "data-bit-flip", &replay);
+            }
+            m.ctx.cover(&("A-flip", len, r));
+        }
+        if r == 0 && (len == 100 || len == 1000) {
+            m.ctx.sample(json!({"family": "A", "len": len, "type": label, "headers": pairs,
+                "armored": String::from_utf8_lossy(&ref_format(&label, &pairs, &data, Some(crc_ref), &Fmt::default()))}));
+        }
+        }
+    }
+
+    lap(m.ctx, "A");
+    // --------------------------------------------------------------------------------------
+    // Family E: exhaustive small payloads — every payload of length 0, 1 and 2 (quick: every
+    // 16th two-byte payload) and 512 three-byte payloads over the sextet-edge byte values:
+    // write vs reference, read back, CRC option.
+    {
+        let edge = [0x00u8, 0x01, 0x3F, 0x40, 0x7F, 0x80, 0xFB, 0xFF];
+        let (typ, label) = m.types[2].clone();
+        for b0 in 0..=256usize {
+            if !m.ctx.mine() {
+                continue;
+            }
+            crate::core::describe_case(&format!("E b0={b0}"));
+            let mut payloads: Vec<Vec<u8>> = vec![];
+            if b0 == 256 {
+                payloads.push(vec![]);
+                for a in edge {
+                    for b in edge {
+                        for c in edge {
+                            payloads.push(vec![a, b, c]);
+                        }
+                    }
+                }
+            } else {
+                payloads.push(vec![b0 as u8]);
+                for b1 in 0..256usize {
+                    if quick && (b1 + b0) % 16 != 0 {
+                        continue;
+                    }
+                    payloads.push(vec![b0 as u8, b1 as u8]);
+                }
+            }
+            for data in payloads {
+                let replay = json!({"family": "E", "type": label, "data": hexs(&data)});
+                let out = m.ctx.guarded("C10/writer", || replay.clone(), || lib_write(&data, typ, None, true, &Chunking::Whole, &Sched::All));
+                let Some(Ok(out)) = out else {
+                    m.ctx.violation("C10/writer/error", "armor::write failed", replay);
+                    continue;
+                };
+                m.check_writer("writer", &out, &label, &[], &data, true, &replay);
+                let Some(emitted) = emitted_footer(&out) else { continue };
+                let ex = Expect { data: &data, typ, pairs: &[], footer: emitted, colon: false };
+                m.check_read(&out, &ex, &base, "lib-output", None, Some(b""), &replay);
+                m.check_crc(&out, &data, emitted, &base, "lib-output", &replay);
+                m.ctx.cover(&("E", &data));
+            }
+        }
+    }
+
+    // a checksum line carrying the CRC-24 initial value over non-empty data must be rejected
+    if m.ctx.mine() {
+        let (_, label) = m.types[2].clone();
+        for (i, len) in [1usize, 3, 100, 768].into_iter().enumerate() {
+            let mut rng = m.ctx.rng("init-footer", len as u64);
+            let mut data = gen_data(&mut rng, len, 7);
+            while rfc::armor::crc24(&data) == CRC_INIT {
+                data[0] = data[0].wrapping_add(1);
+            }
+            let input = ref_format(&label, &[], &data, Some(CRC_INIT), &Fmt::default());
+            let replay = json!({"family": "init-footer", "len": len, "data": hexs(&data)});
+            m.check_crc(&input, &data, Some(CRC_INIT), &drive_k(i * 5, 1), "footer-is-crc-init", &replay);
+            m.ctx.cover(&("init-footer", len));
+        }
+    }
+    lap(m.ctx, "E");
+    // --------------------------------------------------------------------------------------
+    // Family M: configuration matrix — every block type x every header set x checksum on/off x
+    // boundary lengths, every schedule class and source wrapper.
+    let mlens: Vec<usize> = if quick {
+        vec![0, 1, 2, 3, 47, 48, 49, 100]
+    } else {
+        vec![0, 1, 2, 3, 4, 5, 6, 46, 47, 48, 49, 50, 95, 96, 97, 100, 767, 768, 769, 1024]
+    };
+    for ti in 0..ntypes {
+        for hi in 0..nh + 2 {
+            if !m.ctx.mine() {
+                continue;
+            }
+            let (typ, label) = m.types[ti].clone();
+            crate::core::describe_case(&format!("M type={label} hs={hi}"));
+            let mut rng = m.ctx.rng("M", (ti * 100 + hi) as u64);
+            let hs = if hi >= nh { random_header_set(&mut rng) } else { m.hsets[hi].clone() };
+            if typ == BlockType::CleartextMessage && !hs.cleartext_ok {
+                continue;
+            }
+            let headers = hs.to_headers();
+            let pairs = hs.pairs();
+            let hs_colon = !hs.class.is_empty();
+            let seed = rng.gen::<u64>();
+            m.ctx.seen("block_types", type_class(&typ));
+            m.ctx.seen("header_sets", hs.name);
+            for (li, &len) in mlens.iter().enumerate() {
+                let data = gen_data(&mut rng, len, 7);
+                let crc_ref = rfc::armor::crc24(&data);
+                for crc in [true, false] {
+                    let replay = json!({"family": "M", "len": len, "type": label, "headers": hs.name, "pairs": pairs, "crc": crc, "data": hexs(&data)});
+                    let out = m.ctx.guarded("C10/writer", || replay.clone(), || {
+                        lib_write(&data, typ, headers.as_ref(), crc, &Chunking::Whole, &Sched::All)
+                    });
+                    let Some(out) = out else { continue };
+                    let out = match out {
+                        Ok(o) => o,
+                        Err(e) => {
+                            m.ctx.eval();
+                            m.ctx.violation("C10/writer/error", format!("armor::write failed: {e}"), replay);
+                            continue;
+                        }
+                    };
+                    m.check_writer("writer", &out, &label, &pairs, &data, crc, &replay);
+                    let Some(emitted) = emitted_footer(&out) else { continue };
+                    let ex = Expect { data: &data, typ, pairs: &pairs, footer: emitted, colon: hs_colon };
+                    let inclass = "lib-output".to_string();
+                    let bok = m.check_read(&out, &ex, &base, &inclass, None, Some(b""), &replay);
+                    m.ctx.cover(&("M", ti, hs.name, hi, len, crc));
+                    // every schedule with a rotating wrapper / consumer
+                    let sl = sched_list(seed);
+                    let srcs = src_list();
+                    let cl = cons_list();
+                    for (si, sc) in sl.iter().enumerate() {
+                        let k = si + li + hi + ti + crc as usize;
+                        let d = Drive {
+                            sched: sc.clone(),
+                            src: srcs[k % srcs.len()].clone(),
+                            cons: cl[(k / 2) % cl.len()].clone(),
+                            entry: [0u8, 1, 0, 2][k % 4],
+                            safe: false,
+                        };
+                        // inputs with header lines: the head goes in one window; the raw schedule
+                        // (which cuts header lines) is exercised once per (type, header set) cell
+                        let raw_too = !pairs.is_empty() && li == 3 && crc;
+                        if raw_too {
+                            m.ctx.seen("schedules", d.class());
+                            m.ctx.tally("reader.raw_schedule_over_header_lines", 1);
+                            m.check_read(&out, &ex, &d, &inclass, Some(bok), None, &replay);
+                            m.check_crc_h(&out, &data, ex.footer, &d, &inclass, true, &replay);
+                        }
+                        let d = d.for_pairs(&pairs, k);
+                        m.ctx.seen("schedules", d.class());
+                        m.check_read(&out, &ex, &d, &inclass, Some(bok), None, &replay);
+                    }
+                    // variants: two per cell, rotating
+                    for j in 0..2 {
+                        let vi = (li * 2 + j + hi + ti) % VARIANTS.len();
+                        let vname = VARIANTS[vi];
+                        let f = variant_fmt(vname, len + ti);
+                        let exv = Expect { data: &data, typ, pairs: &pairs, footer: crc.then_some(crc_ref), colon: hs_colon };
+                        let ex = &exv;
+                        let input = ref_format(&label, &pairs, &data, ex.footer, &f);
+                        let inclass = vname.to_string();
+                        let bok = m.check_read(&input, ex, &base, &inclass, None, None, &replay);
+                        let d = drive_k(ti * 31 + hi * 7 + li * 3 + j, seed).for_pairs(&pairs, j);
+                        m.check_read(&input, ex, &d, &inclass, Some(bok), None, &replay);
+                        m.check_crc(&input, &data, ex.footer, &d, &inclass, &replay);
+                    }
+                }
+            }
+        }
+    }
+
+    // the RFC's "PART X" form (no total) reads as (X, 0)
+    if m.ctx.mine() {
+        let data = b"multi part".to_vec();
+        for (x, lab) in [(14usize, "PGP MESSAGE, PART 14"), (1, "PGP MESSAGE, PART 1"), (0, "PGP MESSAGE, PART 0")] {
+            let input = ref_format(lab, &[], &data, Some(rfc::armor::crc24(&data)), &Fmt::default());
+            let ex = Expect { data: &data, typ: BlockType::MultiPartMessage(x, 0), pairs: &[], footer: Some(rfc::armor::crc24(&data)), colon: false };
+            let replay = json!({"family": "part-x", "label": lab});
+            let bok = m.check_read(&input, &ex, &base, "part-x-form", None, None, &replay);
+            m.check_read(&input, &ex, &drive_k(x + 1, 3), "part-x-form", Some(bok), None, &replay);
+            m.ctx.cover(&("part-x", x));
+        }
+    }
+
+    lap(m.ctx, "M");
+    // --------------------------------------------------------------------------------------
+    // Family S: all drives (schedule x wrapper x consumer x entry) on a few inputs whose size sits
+    // on the decoder's internal edges (1024-char base64 window = 768 bytes, 128-byte footer
+    // look-ahead), with and without headers.
+    let slens: Vec<usize> = if quick {
+        vec![0, 1, 48, 765, 766, 767, 768, 769, 770, 771, 1536, 1537]
+    } else {
+        vec![0, 1, 2, 3, 47, 48, 49, 95, 96, 97, 764, 765, 766, 767, 768, 769, 770, 771, 772, 1535, 1536, 1537, 2304, 3072, 3073]
+    };
+    for (li, &len) in slens.iter().enumerate() {
+        for hsel in 0..2 {
+            if !m.ctx.mine() {
+                continue;
+            }
+            crate::core::describe_case(&format!("S len={len} hsel={hsel}"));
+            let mut rng = m.ctx.rng("S", (len * 2 + hsel) as u64);
+            let data = gen_data(&mut rng, len, 7);
+            let seed = rng.gen::<u64>();
+            let hs = if hsel == 0 { m.hsets[0].clone() } else { m.hsets[10].clone() };
+            let pairs = hs.pairs();
+            let hs_colon = false;
+            let (typ, label) = m.types[(li + hsel) % ntypes].clone();
+            if typ == BlockType::CleartextMessage {
+                continue;
+            }
+            let crc_ref = rfc::armor::crc24(&data);
+            let sl = sched_list(seed);
+            let srcs = src_list();
+            let cl = cons_list();
+            for (vi, vname) in ["plain", "crlf", "all-mixed", "no-final-newline"].iter().enumerate() {
+                let footer = (vi != 3).then_some(crc_ref);
+                let f = variant_fmt(vname, li);
+                let input = ref_format(&label, &pairs, &data, footer, &f);
+                let ex = Expect { data: &data, typ, pairs: &pairs, footer, colon: hs_colon };
+                let replay = json!({"family": "S", "len": len, "type": label, "pairs": pairs, "variant": vname, "data": hexs(&data)});
+                let bok = m.check_read(&input, &ex, &base, vname, None, None, &replay);
+                for sc in sl.iter() {
+                    for src in srcs.iter() {
+                        for (ci, cons) in cl.iter().enumerate() {
+                            // consumer patterns: all for the plain variant, a rotating third otherwise
+                            if vi != 0 && (ci + li + vi) % 3 != 0 {
+                                continue;
+                            }
+                            let d = Drive { sched: sc.clone(), src: src.clone(), cons: cons.clone(), entry: ((ci + vi) % 3) as u8, safe: false };
+                            if !pairs.is_empty() {
+                                if matches!(src, Src::StdCap(_)) {
+                                    continue;
+                                }
+                                if vi == 0 && ci == 0 {
+                                    // raw schedule over header lines, once per schedule x wrapper
+                                    m.ctx.tally("reader.raw_schedule_over_header_lines", 1);
+                                    m.check_read(&input, &ex, &d, vname, Some(bok), None, &replay);
+                                }
+                            }
+                            let d = d.for_pairs(&pairs, ci);
+                            m.ctx.cover(&("S", len, hsel, vname, d.class(), ci));
+                            m.ctx.seen("schedules", d.class());
+                            m.ctx.seen("consumers", cons.name());
+                            m.check_read(&input, &ex, &d, vname, Some(bok), None, &replay);
+                        }
+                    }
+                }
+            }
+        }
+    }
+
+    lap(m.ctx, "S");
+    // --------------------------------------------------------------------------------------
+    // Family L: large payloads (sampled sizes up to 1 MiB in thorough, 192 KiB in quick)
+    let mut lsizes: Vec<usize> = vec![4097, 8191, 8192, 8193, 12288, 16383, 16384, 16385, 49152, 65535, 65536, 65537];
+    if quick {
+        lsizes.extend([100_000, 196_608]);
+    } else {
+        lsizes.extend([100_000, 131_071, 131_072, 262_144, 262_145, 393_216, 524_287, 524_288, 786_432, 1_048_575, 1_048_576]);
+    }
+    let nrand_l = if quick { 12 } else { 120 };
+    for i in 0..lsizes.len() + nrand_l {
+        if !m.ctx.mine() {
+            continue;
+        }
+        let mut rng = m.ctx.rng("L", i as u64);
+        let len = if i < lsizes.len() {
+            lsizes[i]
+        } else {
+            rng.gen_range(4097..=if quick { 200_000usize } else { 1_048_576 })
+        };
+        crate::core::describe_case(&format!("L len={len}"));
+        let data = gen_data(&mut rng, len, 7);
+        let seed = rng.gen::<u64>();
+        let (typ, label) = m.types[i % ntypes].clone();
+        let hs = if typ == BlockType::CleartextMessage { m.hsets[4].clone() } else { m.hsets[(i * 5) % nh].clone() };
+        if !hs.class.is_empty() {
+            continue;
+        }
+        let hs_colon = false;
+        let headers = hs.to_headers();
+        let pairs = hs.pairs();
+        let crc_ref = rfc::armor::crc24(&data);
+        let crc = i % 3 != 2;
+        let chunk = match &chunkings[i % chunkings.len()] {
+            Chunking::Random(_) => Chunking::Random(seed),
+            c => c.clone(),
+        };
+        let replay = json!({"family": "L", "i": i, "len": len, "type": label, "headers": hs.name, "crc": crc, "chunking": chunk.name()});
+        m.ctx.seen("len_mod3", format!("{}", len % 3));
+        let out = m.ctx.guarded("C10/writer", || replay.clone(), || lib_write(&data, typ, headers.as_ref(), crc, &chunk, &Sched::All));
+        let Some(Ok(out)) = out else {
+            m.ctx.violation("C10/writer/error", "armor::write failed on large payload", replay);
+            continue;
+        };
+        m.check_writer("writer", &out, &label, &pairs, &data, crc, &replay);
+        let Some(emitted) = emitted_footer(&out) else { continue };
+        let ex = Expect { data: &data, typ, pairs: &pairs, footer: emitted, colon: hs_colon };
+        let bok = m.check_read(&out, &ex, &base, "lib-output", None, Some(b""), &replay);
+        for j in 0..4 {
+            let d = drive_k(i * 4 + j, seed).for_pairs(&pairs, j);
+            m.ctx.cover(&("L", len, d.class()));
+            m.check_read(&out, &ex, &d, "lib-output", Some(bok), None, &replay);
+        }
+        m.check_crc(&out, &data, ex.footer, &drive_k(i, seed).for_pairs(&pairs, i), "lib-output", &replay);
+        for j in 0..3 {
+            let vi = (i + j * 5) % VARIANTS.len();
+            let vname = VARIANTS[vi];
+            let exv = Expect { data: &data, typ, pairs: &pairs, footer: crc.then_some(crc_ref), colon: hs_colon };
+            let input = ref_format(&label, &pairs, &data, exv.footer, &variant_fmt(vname, i));
+            let d = drive_k(i * 3 + j + 1, seed).for_pairs(&pairs, j);
+            m.ctx.cover(&("L-v", len, vname, d.class()));
+            m.check_read(&input, &exv, &d, vname, None, None, &replay);
+        }
+        // one data-bit flip with the option on
+        let mut dd = data.clone();
+        let b = rng.gen_range(0..len * 8);
+        dd[b / 8] ^= 1 << (b % 8);
+        let input = ref_format(&label, &[], &dd, Some(crc_ref), &Fmt::default());
+        m.check_crc(&input, &dd, Some(crc_ref), &drive_k(i + 1, seed), "data-bit-flip", &replay);
+        if i == 0 {
+            m.ctx.sample(json!({"family": "L", "len": len, "type": label, "armored_len": out.len(), "crc24": format!("{crc_ref:06X}")}));
+        }
+    }
+
+    lap(m.ctx, "L");
+    // --------------------------------------------------------------------------------------
+    // Family K: to_armored_* / from_armor* of keys, messages, detached signatures
+    composed(&mut m);
+    lap(m.ctx, "K");
+
+    let have: Vec<String> = m.ctx.sets.get("block_types").map(|s| s.iter().cloned().collect()).unwrap_or_default();
+    m.ctx.extra.insert("block_types_this_shard".into(), json!(have));
+    m.ctx.extra.insert("block_type_classes".into(), json!(ALL_TYPE_CLASSES));
+    m.ctx.extra.insert("schedule_classes".into(), json!(SCHED_CLASSES));
+}
+
+// ------------------------------------------------------------------------------------------
+// Family K
+
+/// `Read` source handing out fixed pieces, Send + Debug (Message::from_armor wants both)
+#[derive(Debug)]
+struct PieceReader {
+    data: Vec<u8>,
+    pos: usize,
+    n: usize,
+    /// size of the first piece (0 = n)
+    first: usize,
+}
+
+impl PieceReader {
+    /// pieces of n bytes; the armor head (up to the body) comes in one piece when there are header
+    /// lines (see SIG_HEADER_SPLIT)
+    fn new(data: Vec<u8>, n: usize, has_headers: bool) -> Self {
+        let first = if has_headers { body_start(&data) } else { 0 };
+        PieceReader { data, pos: 0, n, first }
+    }
+}
+
+impl Read for PieceReader {
+    fn read(&mut self, buf: &mut [u8]) -> io::Result<usize> {
+        let want = if self.pos == 0 && self.first > 0 { self.first } else { self.n };
+        let n = want.min(buf.len()).min(self.data.len() - self.pos);
+        buf[..n].copy_from_slice(&self.data[self.pos..self.pos + n]);
+        self.pos += n;
+        Ok(n)
+    }
+}
+
+fn arm_opts(h: &Option<Headers>, crc: bool) -> ArmorOptions<'_> {
+    ArmorOptions { headers: h.as_ref(), include_checksum: crc }
+}
+
+fn composed(m: &mut Mon) {
+    let quick = m.ctx.quick();
+    let hsel = [0usize, 3, 9, 10, 6];
+    // keys
+    let mut specs = vec![
+        zoo::Spec::simple(false, zoo::Alg::Ed25519Legacy, Some(zoo::Alg::EcdhCv25519)),
+        zoo::Spec::simple(true, zoo::Alg::Ed25519, Some(zoo::Alg::X25519)),
+        zoo::Spec::simple(false, zoo::Alg::EcdsaP256, Some(zoo::Alg::EcdhP256)),
+    ];
+    if !quick {
+        specs.push(zoo::Spec::simple(false, zoo::Alg::Rsa2048, Some(zoo::Alg::Rsa2048)));
+        specs.push(zoo::Spec::simple(true, zoo::Alg::Ed448, Some(zoo::Alg::X448)));
+        let mut locked = zoo::Spec::simple(false, zoo::Alg::Ed25519Legacy, Some(zoo::Alg::EcdhCv25519));
+        locked.passphrase = Some("pw".into());
+        locked.uids = 3;
+        specs.push(locked);
+    }
+    for (si, spec) in specs.iter().enumerate() {
+        for (hj, &hidx) in hsel.iter().enumerate() {
+            if !m.ctx.mine() {
+                continue;
+            }
+            crate::core::describe_case(&format!("K key {} hs={hidx}", spec.name()));
+            let hs = m.hsets[hidx].clone();
+            let headers = hs.to_headers();
+            let pairs = hs.pairs();
+            let crc = (si + hj) % 2 == 0;
+            let sk = zoo::key(spec, 0);
+            let pk = zoo::public(&sk);
+            let replay = json!({"family": "K", "object": "key", "spec": spec.name(), "headers": hs.name, "crc": crc});
+            // secret key
+            let r = m.ctx.guarded("C10/composed/secret-key", || replay.clone(), || {
+                let bin = sk.to_bytes().map_err(|e| e.to_string())?;
+                let arm = sk.to_armored_string(arm_opts(&headers, crc)).map_err(|e| e.to_string())?;
+                let arm_b = sk.to_armored_bytes(arm_opts(&headers, crc)).map_err(|e| e.to_string())?;
+                let back = SignedSecretKey::from_string(&arm).map_err(|e| format!("from_string: {e}"));
+                let back2 = SignedSecretKey::from_armor_single(PieceReader::new(arm.clone().into_bytes(), 5, !pairs.is_empty()))
+                    .map_err(|e| format!("from_armor_single: {e}"));
+                let crlf = arm.replace('\n', "\r\n");
+                let back3 = SignedSecretKey::from_reader_single(crlf.as_bytes()).map_err(|e| format!("from_reader_single: {e}"));
+                Ok::<_, String>((bin, arm, arm_b, back, back2, back3))
+            });
+            if let Some(r) = r {
+                match r {
+                    Err(e) => m.ctx.violation("C10/composed/secret-key/armor-error", e, replay.clone()),
+                    Ok((bin, arm, arm_b, back, back2, back3)) => {
+                        m.check_writer("composed/secret-key", arm.as_bytes(), "PGP PRIVATE KEY BLOCK", &pairs, &bin, crc, &replay);
+                        if arm.as_bytes() != &arm_b[..] {
+                            m.ctx.violation("C10/composed/secret-key/string-vs-bytes", "to_armored_string and to_armored_bytes differ", replay.clone());
+                        }
+                        let mut chk = |name: &str, b: Result<(SignedSecretKey, Headers), String>| match b {
+                            Ok((k, h)) => {
+                                // armor must be transparent: same object as parsing the binary form,
+                                // and it must serialise to the same bytes
+                                let via_bin = SignedSecretKey::from_bytes(&bin[..]).ok();
+                                if via_bin.as_ref() != Some(&sk) {
+                                    m.ctx.tally("K.note.binary_parse_of_to_bytes_is_not_identity(secret-key)", 1);
+                                }
+                                if via_bin.is_some() && Some(&k) != via_bin.as_ref() || k.to_bytes().ok().as_deref() != Some(&bin[..]) {
+                                    m.ctx.violation(format!("C10/composed/secret-key/roundtrip-differs/{name}"), "key differs after armor round trip", replay.clone());
+                                }
+                                if flatten(&h) != pairs {
+                                    m.ctx.violation(format!("C10/composed/secret-key/headers-differ/{name}"), format!("headers {:?}, want {:?}", flatten(&h), pairs), replay.clone());
+                                }
+                            }
+                            Err(e) => m.ctx.violation(format!("C10/composed/secret-key/read-error/{name}"), e, replay.clone()),
+                        };
+                        chk("from_string", back);
+                        chk("from_armor_single", back2);
+                        chk("from_reader_single-crlf", back3.map(|(k, h)| (k, h.unwrap_or_default())));
+                        m.ctx.evals_add(3);
+                        m.ctx.cover(&("K-sk", si, hidx, crc));
+                        m.ctx.seen("composed_objects", "secret-key");
+                    }
+                }
+            }
+            // public key
+            let r = m.ctx.guarded("C10/composed/public-key", || replay.clone(), || {
+                let bin = pk.to_bytes().map_err(|e| e.to_string())?;
+                let arm = pk.to_armored_string(arm_opts(&headers, crc)).map_err(|e| e.to_string())?;
+                let back = SignedPublicKey::from_string(&arm).map_err(|e| format!("from_string: {e}"));
+                let lead = format!("Here is my key:\n\n{}\nthanks\n", arm.trim_end_matches('\n'));
+                let back2 = SignedPublicKey::from_armor_single(PieceReader::new(lead.into_bytes(), 4096, false))
+                    .map_err(|e| format!("from_armor_single: {e}"));
+                Ok::<_, String>((bin, arm, back, back2))
+            });
+            if let Some(r) = r {
+                match r {
+                    Err(e) => m.ctx.violation("C10/composed/public-key/armor-error", e, replay.clone()),
+                    Ok((bin, arm, back, back2)) => {
+                        m.check_writer("composed/public-key", arm.as_bytes(), "PGP PUBLIC KEY BLOCK", &pairs, &bin, crc, &replay);
+                        let mut chk = |name: &str, b: Result<(SignedPublicKey, Headers), String>| match b {
+                            Ok((k, h)) => {
+                                let via_bin = SignedPublicKey::from_bytes(&bin[..]).ok();
+                                if via_bin.as_ref() != Some(&pk) {
+                                    m.ctx.tally("K.note.binary_parse_of_to_bytes_is_not_identity(public-key)", 1);
+                                }
+                                if via_bin.is_some() && Some(&k) != via_bin.as_ref() || k.to_bytes().ok().as_deref() != Some(&bin[..]) {
+                                    m.ctx.violation(format!("C10/composed/public-key/roundtrip-differs/{name}"), "key differs after armor round trip", replay.clone());
+                                }
+                                if flatten(&h) != pairs {
+                                    m.ctx.violation(format!("C10/composed/public-key/headers-differ/{name}"), format!("headers {:?}, want {:?}", flatten(&h), pairs), replay.clone());
+                                }
+                            }
+                            Err(e) => m.ctx.violation(format!("C10/composed/public-key/read-error/{name}"), e, replay.clone()),
+                        };
+                        chk("from_string", back);
+                        chk("from_armor_single-leading-text", back2);
+                        m.ctx.evals_add(2);
+                        m.ctx.cover(&("K-pk", si, hidx, crc));
+                        m.ctx.seen("composed_objects", "public-key");
+                        if si == 0 && hj == 1 {
+                            m.ctx.sample(json!({"family": "K", "object": "public key", "spec": spec.name(), "armored": arm}));
+                        }
+                    }
+                }
+            }
+        }
+    }
+
+    // messages: the MessageBuilder armor emitter is a second copy of the writer
+    let msizes: Vec<usize> = if quick {
+        (0..=200).chain([765, 766, 767, 768, 4000, 8192, 20000]).collect()
+    } else {
+        (0..=1100).chain([4000, 8192, 20000, 65536, 300_000]).collect()
+    };
+    for (i, &len) in msizes.iter().enumerate() {
+        if !m.ctx.mine() {
+            continue;
+        }
+        crate::core::describe_case(&format!("K message len={len}"));
+        let mut rng = m.ctx.rng("K-msg", len as u64);
+        let payload = gen_data(&mut rng, len, 7);
+        let hs = m.hsets[hsel[i % hsel.len()]].clone();
+        let headers = hs.to_headers();
+        let pairs = hs.pairs();
+        let crc = i % 2 == 0;
+        let replay = json!({"family": "K", "object": "message", "len": len, "headers": hs.name, "crc": crc, "payload": hexs(&payload)});
+        let r = m.ctx.guarded("C10/composed/message", || replay.clone(), || {
+            let r1 = rand_chacha::ChaCha8Rng::seed_from_u64(1);
+            let r2 = rand_chacha::ChaCha8Rng::seed_from_u64(1);
+            let bin = MessageBuilder::from_bytes("f", payload.clone()).to_vec(r1).map_err(|e| e.to_string())?;
+            let arm = MessageBuilder::from_bytes("f", payload.clone())
+                .to_armored_string(r2, arm_opts(&headers, crc))
+                .map_err(|e| e.to_string())?;
+            let back = match Message::from_string(&arm) {
+                Ok((mut msg, h)) => msg.as_data_vec().map(|d| (d, h)).map_err(|e| format!("as_data_vec: {e}")),
+                Err(e) => Err(format!("from_string: {e}")),
+            };
+            let back2 = match Message::from_armor(BufReader::new(PieceReader::new(arm.replace('\n', "\r\n").into_bytes(), 7, !pairs.is_empty()))) {
+                Ok((mut msg, h)) => msg.as_data_vec().map(|d| (d, h)).map_err(|e| format!("as_data_vec: {e}")),
+                Err(e) => Err(format!("from_armor: {e}")),
+            };
+            Ok::<_, String>((bin, arm, back, back2))
+        });
+        let Some(r) = r else { continue };
+        match r {
+            Err(e) => m.ctx.violation("C10/composed/message/armor-error", e, replay.clone()),
+            Ok((bin, arm, back, back2)) => {
+                m.check_writer("composed/message", arm.as_bytes(), "PGP MESSAGE", &pairs, &bin, crc, &replay);
+                for (name, b) in [("from_string", back), ("from_armor-crlf-pieces", back2)] {
+                    m.ctx.eval();
+                    match b {
+                        Ok((d, h)) => {
+                            if d != payload {
+                                m.ctx.violation(format!("C10/composed/message/roundtrip-differs/{name}"), "payload differs after armor round trip", replay.clone());
+                            }
+                            if flatten(&h) != pairs {
+                                m.ctx.violation(format!("C10/composed/message/headers-differ/{name}"), format!("headers {:?}, want {:?}", flatten(&h), pairs), replay.clone());
+                            }
+                        }
+                        Err(e) => m.ctx.violation(format!("C10/composed/message/read-error/{name}"), e, replay.clone()),
+                    }
+                }
+                m.ctx.cover(&("K-msg", len, hs.name, crc));
+                m.ctx.seen("composed_objects", "message");
+            }
+        }
+    }
+
+    // detached signatures
+    let key = zoo::key(&zoo::Spec::simple(false, zoo::Alg::Ed25519Legacy, None), 0);
+    for i in 0..(if quick { 10usize } else { 40 }) {
+        if !m.ctx.mine() {
+            continue;
+        }
+        crate::core::describe_case(&format!("K signature {i}"));
+        let mut rng = m.ctx.rng("K-sig", i as u64);
+        let mut doc = vec![0u8; i * 37];
+        rng.fill_bytes(&mut doc);
+        let hs = m.hsets[hsel[i % hsel.len()]].clone();
+        let headers = hs.to_headers();
+        let pairs = hs.pairs();
+        let crc = i % 2 == 1;
+        let replay = json!({"family": "K", "object": "signature", "i": i, "headers": hs.name, "crc": crc});
+        let r = m.ctx.guarded("C10/composed/signature", || replay.clone(), || {
+            let sig = DetachedSignature::sign_binary_data(&mut rng, &key.primary_key, &Password::empty(), HashAlgorithm::Sha256, &doc[..])
+                .map_err(|e| e.to_string())?;
+            let bin = sig.to_bytes().map_err(|e| e.to_string())?;
+            let arm = sig.to_armored_string(arm_opts(&headers, crc)).map_err(|e| e.to_string())?;
+            let back = DetachedSignature::from_string(&arm).map_err(|e| format!("from_string: {e}"));
+            let back2 = DetachedSignature::from_armor_single(PieceReader::new(arm.replace('\n', "\r\n").into_bytes(), 3, !pairs.is_empty()))
+                .map_err(|e| format!("from_armor_single: {e}"));
+            Ok::<_, String>((sig, bin, arm, back, back2))
+        });
+        let Some(r) = r else { continue };
+        match r {
+            Err(e) => m.ctx.violation("C10/composed/signature/armor-error", e, replay.clone()),
+            Ok((sig, bin, arm, back, back2)) => {
+                m.check_writer("composed/signature", arm.as_bytes(), "PGP SIGNATURE", &pairs, &bin, crc, &replay);
+                for (name, b) in [("from_string", back), ("from_armor_single-crlf-pieces", back2)] {
+                    m.ctx.eval();
+                    match b {
+                        Ok((sg, h)) => {
+                            if sg != sig || sg.to_bytes().ok().as_deref() != Some(&bin[..]) {
+                                m.ctx.violation(format!("C10/composed/signature/roundtrip-differs/{name}"), "signature differs after armor round trip", replay.clone());
+                            }
+                            if flatten(&h) != pairs {
+                                m.ctx.violation(format!("C10/composed/signature/headers-differ/{name}"), format!("headers {:?}, want {:?}", flatten(&h), pairs), replay.clone());
+                            }
+                        }
+                        Err(e) => m.ctx.violation(format!("C10/composed/signature/read-error/{name}"), e, replay.clone()),
+                    }
+                }
+                m.ctx.cover(&("K-sig", i, hs.name, crc));
+                m.ctx.seen("composed_objects", "signature");
+            }
+        }
+    }
 }
